@@ -24,14 +24,25 @@
 (*   loose   tokens whose media part nothing obliges the library to keep:    *)
 (*           pictures the caller removed, unreferenced media of a foreign    *)
 (*           package                                                         *)
+(*   files   set of [path, tok]: the caller's image files (the environment): *)
+(*           what each named path holds now. A picture added from a path     *)
+(*           shows what the file held WHEN THE CALL WAS MADE; writing or      *)
+(*           removing a file never changes a document                         *)
 (* Image tokens are names of entries of the table Images below; the token    *)
 (* identifies the exact bytes. An operation is a record [op |-> name, ...].  *)
 (***************************************************************************)
 EXTENDS Integers, Sequences, FiniteSets, TLC
 
-\* ---- image tokens (format, pixel size); bytes are a function of the entry ----
-Img(t, f, pw, ph) == [t |-> t, f |-> f, pw |-> pw, ph |-> ph]
-Images == {Img("P1", "png", 3, 2),  Img("P2", "png", 2, 2),  Img("P3", "png", 7, 3), Img("P4", "png", 100, 50),
+\* ---- image tokens (format, pixel size, encoded length); bytes are a function of the entry ----
+\* len = exact length of the image file in bytes; 0: whatever the encoder gives for so few pixels (< 1 KiB)
+ImgL(t, f, pw, ph, len) == [t |-> t, f |-> f, pw |-> pw, ph |-> ph, len |-> len]
+Img(t, f, pw, ph) == ImgL(t, f, pw, ph, 0)
+\* the ladder of encoded lengths: one byte more than 2^16 ... 2^25 (scans, photographs), the three formats in turn
+LargeImages == {ImgL("L16", "gif", 6, 4, 2^16 + 1),  ImgL("L20", "jpeg", 8, 6, 2^20 + 1),
+                ImgL("L22", "png", 5, 9, 2^22 + 1),  ImgL("L23", "gif", 7, 7, 2^23 + 1),
+                ImgL("L24", "png", 12, 8, 2^24 + 1), ImgL("L25", "jpeg", 10, 10, 2^25 + 1)}
+Images == LargeImages \cup
+          {Img("P1", "png", 3, 2),  Img("P2", "png", 2, 2),  Img("P3", "png", 7, 3), Img("P4", "png", 100, 50),
            Img("J1", "jpeg", 4, 3), Img("J2", "jpeg", 1, 5), Img("J3", "jpeg", 3, 3),
            Img("G1", "gif", 5, 5),  Img("G2", "gif", 2, 7),  Img("G3", "gif", 9, 3),
            \* twins: same format, same pixel size and same encoded LENGTH as P1 / J2 / G1, different bytes
@@ -39,6 +50,7 @@ Images == {Img("P1", "png", 3, 2),  Img("P2", "png", 2, 2),  Img("P3", "png", 7,
            Img("P1b", "png", 3, 2), Img("J2b", "jpeg", 1, 5), Img("G1b", "gif", 5, 5)}
 ImgOf(t) == CHOOSE i \in Images : i.t = t
 TokNames == {i.t : i \in Images}
+LenAtMost(n) == {i.t : i \in {x \in Images : x.len <= n}}
 
 \* ---- size configurations: millimetres in 1/100 mm so that TLC stays in the integers ----
 \* cfg: "nil" no configuration at all, "nosize" configuration without size, "size" a size record
@@ -90,7 +102,21 @@ OldEl(e) == IF e.k = "tbl" THEN [e EXCEPT !.cells = [c \in 1..Len(e.cells) |-> O
 OldBody(b) == [i \in 1..Len(b) |-> OldEl(b[i])]
 
 StylesRel == [id |-> "rId1", kind |-> "styles", tgt |-> "word/styles.xml"]
-InitSt == [origin |-> "new", body |-> <<>>, media |-> {}, rels |-> <<StylesRel>>, ctr |-> 0, ninfo |-> 0, loose |-> {}]
+InitSt == [origin |-> "new", body |-> <<>>, media |-> {}, rels |-> <<StylesRel>>, ctr |-> 0, ninfo |-> 0, loose |-> {},
+           files |-> {}]
+
+\* ---- the caller's image files ------------------------------------------------
+\* a path slot stands for one file path (the executor gives each slot a fixed name and spells the path in
+\* several equivalent ways); "" = a file of its own that nothing else names, or no file at all
+PathSlots == {"pa", "pb"}
+HasFile(s, p) == \E x \in s.files : x.path = p
+FileTok(s, p) == (CHOOSE x \in s.files : x.path = p).tok
+WriteFile(s, p, t) == [s EXCEPT !.files = {x \in @ : x.path # p} \cup {[path |-> p, tok |-> t]}]
+RemoveFile(s, p) == [s EXCEPT !.files = {x \in @ : x.path # p}]
+\* the image an addition is given: the one the call carries, or what the file it names holds now
+Given(s, op) == IF op.op = "AddResource" THEN op.img
+                ELSE IF op.path # "" /\ HasFile(s, op.path) THEN ImgOf(FileTok(s, op.path)) ELSE op.img
+FilesFunctional(s) == \A x, y \in s.files : x.path = y.path => x.tok = y.tok
 
 \* ---- allocation (the implementation's free choices; only freshness matters) ----
 RelIds(s) == {s.rels[i].id : i \in 1..Len(s.rels)}
@@ -190,6 +216,7 @@ RenderLines(s, slots, i, data) ==
 
 \* ---- operations ----------------------------------------------------------
 AddOps == {"AddImage", "AddResource", "AddCellImage"}
+EnvOps == {"WriteFile", "RemoveFile"}      \* the caller's files change, no document does
 InfoOps == {"ResizeImage", "SetImagePosition", "SetImageWrapText", "SetImageAltText", "SetImageTitle", "SetImageAlignment"}
 OtherKinds == {"AddHeader", "AddFooter", "AddHeaderWithPageNumber", "AddListItem", "AddFootnote", "AddEndnote", "AddParagraph"}
 RelKindOf(what) ==
@@ -207,9 +234,11 @@ NthBodyPic(s, n) == CHOOSE i \in BodyPicPos(s) : Cardinality({j \in BodyPicPos(s
 \* when the call is expected to succeed
 Guard(s, op) ==
   CASE op.op = "RemovePic" -> op.i >= 1 /\ op.i <= Cardinality(BodyPicPos(s))
+    [] op.op = "AddImage" -> op.path = "" \/ HasFile(s, op.path)
     [] op.op = "AddCellImage" -> /\ op.tbl >= 1 /\ op.tbl <= NTables(s)
                                  /\ op.r \in 0..(TblRows - 1) /\ op.c \in 0..(TblCols - 1)
                                  /\ (op.fmt = "" \/ op.fmt = op.img.f)
+                                 /\ (op.path = "" \/ HasFile(s, op.path))
     [] op.op = "AddCellPlaceholder" -> /\ op.tbl >= 1 /\ op.tbl <= NTables(s)
                                        /\ op.r \in 0..(TblRows - 1) /\ op.c \in 0..(TblCols - 1)
     [] op.op \in InfoOps -> op.h # "nil"
@@ -233,17 +262,21 @@ AddRel(s, kinds) ==
 
 Apply0(s, op) ==
   CASE op.op = "AddImage" ->
-         [Store(s, op.img) EXCEPT !.body = Append(@, Pic(FreshRel(s), Extent(op.sz, op.img.pw, op.img.ph), op.sz.n))]
+         LET g == Given(s, op)
+         IN [Store(s, g) EXCEPT !.body = Append(@, Pic(FreshRel(s), Extent(op.sz, g.pw, g.ph), op.sz.n))]
     [] op.op = "AddResource" -> Store(s, op.img)
     [] op.op = "AddTable" -> [s EXCEPT !.body = Append(@, EmptyTbl)]
     [] op.op = "AddCellImage" ->
-         [Store(s, op.img) EXCEPT !.body[TablePos(s, op.tbl)].cells[CellIdx(op)] =
-                                     Append(@, Pic(FreshRel(s), Extent(op.sz, op.img.pw, op.img.ph), op.sz.n))]
+         LET g == Given(s, op)
+         IN [Store(s, g) EXCEPT !.body[TablePos(s, op.tbl)].cells[CellIdx(op)] =
+                                   Append(@, Pic(FreshRel(s), Extent(op.sz, g.pw, g.ph), op.sz.n))]
+    [] op.op = "WriteFile" -> WriteFile(s, op.path, op.img.t)
+    [] op.op = "RemoveFile" -> RemoveFile(s, op.path)
     [] op.op = "AddPlaceholder" -> [s EXCEPT !.body = Append(@, Ph(op.slot, op.lay))]
     [] op.op = "AddCellPlaceholder" ->
          [s EXCEPT !.body[TablePos(s, op.tbl)].cells[CellIdx(op)] = Append(@, Ph(op.slot, op.lay))]
     [] op.op = "Render" -> IF op.keep THEN s ELSE RenderDoc(s, op.data)
-    [] op.op = "RenderString" -> [RenderLines(InitSt, op.slots, 1, op.data) EXCEPT !.origin = "rstring"]
+    [] op.op = "RenderString" -> [RenderLines(InitSt, op.slots, 1, op.data) EXCEPT !.origin = "rstring", !.files = s.files]
     [] op.op = "RemovePic" ->      \* (the reference machine keeps the media part and the relationship)
          [s EXCEPT !.body[NthBodyPic(s, op.i)] = Txt, !.loose = @ \cup {Resolve(s, s.body[NthBodyPic(s, op.i)].embed)}]
     [] op.op = "Other" -> AddRel(s, RelKindOf(op.what))
@@ -253,7 +286,7 @@ Apply0(s, op) ==
          LET f == [origin |-> "foreign", body |-> op.shape.body,
                    media |-> {[name |-> op.shape.media[i].name, tok |-> op.shape.media[i].img.t] : i \in 1..Len(op.shape.media)},
                    rels |-> [i \in 1..Len(op.shape.rels) |-> [id |-> op.shape.rels[i].id, kind |-> op.shape.rels[i].kind, tgt |-> op.shape.rels[i].tgt]],
-                   ctr |-> op.shape.ctr, ninfo |-> s.ninfo, loose |-> {}]
+                   ctr |-> op.shape.ctr, ninfo |-> s.ninfo, loose |-> {}, files |-> s.files]
          IN [f EXCEPT !.loose = {m.tok : m \in f.media} \ {View(f)[i].tok : i \in 1..Len(View(f))}]
     [] OTHER -> s      \* InfoOps: the handle's configuration changes, the document does not
 Apply(s, op) == IF Guard(s, op) THEN Apply0([s EXCEPT !.body = OldBody(@)], op) ELSE [s EXCEPT !.body = OldBody(@)]
@@ -298,9 +331,14 @@ ForeignShape(name) ==
          [name |-> name, media |-> <<FMed("word/media/cjk1.png", "P3"), FMed("word/media/image1.png", "P3")>>,
           rels |-> <<FStyles, FRel("rId2", "image", "word/media/cjk1.png"), FRel("rId3", "image", "word/media/image1.png")>>,
           body |-> <<FPic("rId2", ImgOf("P3")), FPic("rId3", ImgOf("P3"))>>, ctr |-> 2]
+    [] name = "large" ->        \* a scan of more than 16 MiB next to a small picture
+         [name |-> name, media |-> <<FMed("word/media/image1.png", "L24"), FMed("word/media/image2.jpeg", "J2")>>,
+          rels |-> <<FStyles, FRel("rId2", "image", "word/media/image1.png"), FRel("rId3", "image", "word/media/image2.jpeg")>>,
+          body |-> <<FPic("rId2", ImgOf("L24")), FPic("rId3", ImgOf("J2"))>>, ctr |-> 3]
     [] OTHER ->                 \* "nopics": a package without pictures and without a relationship part entry for images
          [name |-> "nopics", media |-> <<>>, rels |-> <<FStyles>>, body |-> <<>>, ctr |-> 0]
 ShapeNames == {"noext", "upper", "jpg", "gap", "lead0", "otherdir", "abs", "cjk", "nopics"}
+LargeShapeNames == {"large"}
 
 \* ---- the property on an observed state (witness sets; empty = holds) ----------
 Near(a, b, tol) == a - b <= tol /\ b - a <= tol
